@@ -106,15 +106,20 @@ FIRST_RUN_MISSED = {  # seeded changes the checks did NOT catch when first confr
 }
 NOT_DETECTED_BY_DESIGN = {"C19-5", "C09-8"}
 ids = sys.argv[1:] or sorted(os.listdir(os.path.join(HERE, "seeded")))
-rows = []
-for sid in ids:
+PAR = int(os.environ.get("SEED_PAR", "3"))
+ENV = dict(os.environ)
+ENV.setdefault("VERIF_JOBS", str(max(2, (os.cpu_count() or 4) // PAR)))
+ENV.setdefault("VERIF_ITEM_LIMIT_S", "600")
+
+
+def run_one(sid):
     d = os.path.join(HERE, "seeded", sid)
     if not os.path.isdir(d) or not os.path.exists(os.path.join(d, "meta.json")):
-        continue
+        return None
     meta = json.load(open(os.path.join(d, "meta.json")))
     prop = meta["property"]
     also = meta.get("also_run", [])
-    out = subprocess.run([os.path.join(HERE, "tools", "process_seed.sh"), d, prop] + also, capture_output=True, text=True).stdout
+    out = subprocess.run([os.path.join(HERE, "tools", "process_seed.sh"), d, prop] + also, capture_output=True, text=True, env=ENV).stdout
     m = re.search(r"demo_unpatched_exit=(\d+) demo_patched_exit=(\d+) tests='([^']*)'", out)
     checks = {}
     for mm in re.finditer(r"CHECK (\S+) exit=(\d+) violations=(\d+) :: (.*)", out):
@@ -132,12 +137,25 @@ for sid in ids:
     if sid in FIRST_RUN_MISSED:
         meta["verified"]["why_first_missed"] = FIRST_RUN_MISSED[sid]
     json.dump(meta, open(os.path.join(d, "meta.json"), "w"), indent=1)
-    ok = checks.get(prop, {}).get("exit") == 1 or sid in NOT_DETECTED_BY_DESIGN
-    rows.append((sid, prop, meta.get("summary", "").replace("\n", " ")[:150], meta.get("needs", "").replace("\n", " ")[:120],
-                 "yes" if sid not in FIRST_RUN_MISSED else "no",
-                 ("not reported, by design (unspecified zone)" if sid in NOT_DETECTED_BY_DESIGN and checks.get(prop, {}).get("exit") != 1
-                  else "exit 1: " + ", ".join(checks.get(prop, {}).get("kinds", []))) if ok else "MISSED " + str(checks)))
-    print(sid, "OK" if ok else "MISSED", checks)
+    demo_ok = bool(m) and m.group(1) == "0" and m.group(2) != "0" and "60 passed" in m.group(3)
+    ok = (checks.get(prop, {}).get("exit") == 1 or sid in NOT_DETECTED_BY_DESIGN) and demo_ok
+    row = (sid, prop, meta.get("summary", "").replace("\n", " ")[:150], meta.get("needs", "").replace("\n", " ")[:120],
+           "yes" if sid not in FIRST_RUN_MISSED else "no",
+           ("not reported, by design (unspecified zone)" if sid in NOT_DETECTED_BY_DESIGN and checks.get(prop, {}).get("exit") != 1
+            else "exit 1: " + ", ".join(checks.get(prop, {}).get("kinds", []))) if ok else "MISSED " + str(checks))
+    print(sid, "OK" if ok else ("MISSED" if demo_ok else "DEMO-NOT-CONFIRMED"), checks, flush=True)
+    return row
+
+
+def _key(sid):
+    a, _, b = sid.partition("-")
+    return (a, int(b) if b.isdigit() else 0)
+
+
+from concurrent.futures import ThreadPoolExecutor
+ids = sorted(ids, key=_key)
+with ThreadPoolExecutor(PAR) as ex:
+    rows = [r for r in ex.map(run_one, ids) if r is not None]
 if not sys.argv[1:]:
     with open(os.path.join(HERE, "seeded", "INDEX.md"), "w") as f:
         f.write("| seed | property | change | needs | caught at first confrontation | now (quick tier) |\n|---|---|---|---|---|---|\n")
